@@ -2036,7 +2036,9 @@ def r_trunc(E):
                                 "goes through timedelta (microsecond rounding) or an explicit round()")
     from ..astutil import fully_expanded
     rel, tree = pm.module_tree(TB)
-    for fn in [n for n in tree.body if isinstance(n, ast.FunctionDef)]:
+    # (the builders and the methods of the small value classes of the module they are written with)
+    for fn in [n for n in tree.body if isinstance(n, ast.FunctionDef)] + [
+            m for k in tree.body if isinstance(k, ast.ClassDef) for m in k.body if isinstance(m, ast.FunctionDef)]:
         for c in _calls(fn):
             trunc = (isinstance(c.func, ast.Name) and c.func.id == "int") or norm(c.func) in ("math.floor", "np.floor")
             if not trunc or not c.args:
@@ -2046,7 +2048,7 @@ def r_trunc(E):
             if ".to(" not in t or ".magnitude" not in t and ".m" not in t:
                 continue
             res.instances += 1
-            absorbed = "timedelta(" in t or "round(" in t
+            absorbed = _noise_absorbed(a)
             if not absorbed:
                 res.findings.append(Finding(
                     "R-TRUNC", f"{fn.name} :: {norm(c)[:80]}",
